@@ -1288,6 +1288,11 @@ static void run_snappy_case(uint64_t idx) {
     if (st == (int)(idx % 4)) snappy_mutations(&r, zz, enc.len, n, st == 2 ? "reference style 2 (copy-4)" : st == 3 ? "reference style 3 (rle/long literals)" : "reference encoder");
     free(zz);
   }
+  if (samples_left > 0 && n > 64) {
+    samples_left--;
+    vh_sample(PROP, "snappy case %llu: %zu bytes of style %s -> snappy_encode %zu bytes (bound %zu); reference decoder and snappy_decode both reproduce the input; reference encoder styles 0..3 accepted by snappy_decode; truncated/altered streams handled",
+              (unsigned long long)idx, n, style_name[style], zl, bound);
+  }
   vh_distinct("c16_snappy_shape", "%s|%s", style_name[style], n == 0 ? "0" : n < 17 ? "<17" : n < 65536 ? "<64K" : n == 65536 ? "=64K" : n <= (256u << 10) ? "<=256K" : "<=1M");
   rc_buf_free(&ref);
   rc_buf_free(&enc);
@@ -1413,6 +1418,11 @@ static void run_sep_case(uint64_t idx) {
     int ai = pair_a[idx], bi = pair_b[idx], i, j;
     sep_pair(&r, sstr[ai], slen[ai], sstr[bi], slen[bi], idx);
     vh_count("c16_sep_exhaustive_pairs", 1);
+    if (samples_left > 0 && idx % 9973 == 4000) {
+      samples_left--;
+      vh_sample(PROP, "sep case %llu: start=%s limit=%s: bytewise and internal-key shortest_separator stay in [start, limit), short_successor >= argument",
+                (unsigned long long)idx, vh_hex(sstr[ai], slen[ai]), vh_hex(sstr[bi], slen[bi]));
+    }
     if (bi == ai + 1) {
       /* once per string: versions of ONE user key (start and limit share the user key) */
       int who = ai;
